@@ -125,8 +125,10 @@ pub fn run(ctx: &Ctx, rep: &mut Report) {
         let oob_before = sudachi::verif::counters();
         let n_texts = if size_class >= 2 { 60 } else { 20 };
         for ti in 0..n_texts {
-            let text = match rng.below(4) {
+            let text = match rng.below(5) {
                 0 => rng.pick(&keys).clone(),
+                // NUL is the terminator label inside the double array
+                4 => format!("{}\u{0}{}\u{0}", rng.pick(&keys), rng.pick(&keys)),
                 1 => format!("{}{}", rng.pick(&keys), rng.pick(&keys)),
                 _ => textgen::text_from_keys(&mut rng, &keys, 6),
             };
